@@ -229,6 +229,7 @@ def unit_parsers(ctx, days):
     dow_map = dict(dp.config.day_of_week)
     names = sorted(dow_map)
     lines, impl, meta = [], [], []
+    days = [WITNESS_NEXT_MONTH.date()] + list(days)          # the regression witness of d8aa8bf73 comes first
 
     def res2(r):
         return '%s\t%s' % (r.timex, fmt_dt(r.future_value)) if r.success and r.future_value == r.past_value else 'no:%r' % r.success
